@@ -13,7 +13,7 @@ def first_sentence(t, n=230):
 
 
 def main():
-    rows, brow, neutral = [], [], []
+    rows, brow, neutral, outside = [], [], [], []
     for d in sorted(glob.glob(os.path.join(VERIF, "seeded", "*"))):
         mp = os.path.join(d, "meta.json")
         if not os.path.isfile(mp):
@@ -30,17 +30,20 @@ def main():
         if m.get("neutralised_by"):
             neutral.append("| `%s` | %s | %s |" % (name, m["property"], first_sentence(m["neutralised_by"], 400)))
             continue
+        if m.get("outside_reading"):
+            outside.append("| `%s` | %s | %s |" % (name, m["property"], first_sentence(m["outside_reading"], 900)))
+            continue
         clause = first_sentence(q.get("first", ""), 160).replace("|", "/")
         rows.append("| `%s` | %s | %s | %s | %s |" % (name, m["property"], first_sentence(m.get("needs_to_manifest", ""), 260).replace("|", "/"), verdict, clause))
     ndet = sum(1 for r in rows if "| reported |" in r)
     txt = ["## 13. Seeded breaking changes and which checks catch them", "",
            "Independent sub-agents were given only the text of one property and a scratch worktree, and asked for changes that break the property while the pinned suite still passes "
-           "(seven rounds: 40, 40, 40, 20, 20, 20 and 40 changes; the second round asked for interactions between features, state left by earlier calls, unusual legal values, error paths, cooperating edits; the third to seventh for "
+           "(nine rounds: 40, 40, 40, 20, 20, 20, 40, 40 and 40 changes; from round 8 on every agent was also given the list of what earlier rounds had produced for its property, with the request not to repeat it; the second round asked for interactions between features, state left by earlier calls, unusual legal values, error paths, cooperating edits; the third to ninth for "
            "code sites, backends and triggers the earlier rounds were unlikely to have tried). "
            "Each change was confirmed in a scratch worktree by `tools/seed_import.py` (demo passes unchanged, pinned suite 156 passed with the change, demo fails with the change) and is kept under "
            "`seeded/<name>/` (patch.diff, demo.py, meta.json). `tools/seed_eval.py` applies each patch to a scratch worktree (never /repo), points the quick check of its property at that tree (`AW_REPO`) "
            "and records the outcome. **%d of %d seeded changes are reported by the quick check of their own property** on the current machinery." % (ndet, len(rows)), "",
-           "On first evaluation the checks of the time missed 9 of 40 (round 1), 14 of 40 (round 2), 8 of 40 (round 3), 10 of 20 (round 4, which went to the ten properties with the highest earlier miss rates), 3 of 20 (round 5, the other ten properties), 7 of 20 (round 6, the first ten again) and 8 of 40 (round 7, all properties; by then many submissions repeated earlier ideas); every miss was analysed and the generators / judges strengthened until it was reported "
+           "On first evaluation the checks of the time missed 9 of 40 (round 1), 14 of 40 (round 2), 8 of 40 (round 3), 10 of 20 (round 4, which went to the ten properties with the highest earlier miss rates), 3 of 20 (round 5, the other ten properties), 7 of 20 (round 6, the first ten again) 8 of 40 (round 7, all properties; by then many submissions repeated earlier ideas), 12 of 40 (round 8) and 19 of 40 (round 9; the lists of earlier ideas pushed the agents to code sites and mechanisms nobody had touched); every miss was analysed and the generators / judges strengthened until it was reported "
            "(never by special-casing the seeded input). What was added in response: runs of calls without intermediate reads judged as one batch "
            "(lazy-commit / rollback / cache interactions), total projection (an unreadable bucket is an observation, not a harness crash), deletes of ids that live in another bucket, "
            "out-of-contract and absurd ids ending a no-read run, stale `Bucket` handles described in every projection, bucket re-creation in the ownership model, window edges placed at the ends of "
@@ -57,10 +60,16 @@ def main():
            "crash point (C06), a uniform sub-millisecond part on every duration of a heartbeat stream (C07), data / id reassignment between two serialisations (C13), regexes containing blanks (C19), raw unicode line separators "
            "and multi-line strings in TOML (C20), and the stricter reading of 'the previous flush' that exposed F17 (C18); after round 7: event objects that carry an id of their own handed to replace_last and a sub-millisecond part on every duration of a store history (C02), "
            "bucket contents whose events reached their instants by replacement (C03), interval pieces of whole days (C09), a failed query followed by a change of the bucket and the same window again (C12), heartbeats built from ISO strings with "
-           "varying offsets (C07), data dicts built in different key orders (C16), bulk writes beyond internal chunk sizes after idle time (C18).", "",
+           "varying offsets (C07), data dicts built in different key orders (C16), bulk writes beyond internal chunk sizes after idle time (C18); after rounds 8-9: canaries paired with control records, a wider corruption alphabet and stale-bucket query sequences (C17), strings whose brackets do not balance, "
+           "categorize / tag built-ins compared with the transform on the written arguments, list-valued filter values (C11), `$`-keys, values longer than a thousand characters, case pairs only the regex engine relates, one rule dict used for several rules (C19), "
+           "a spectator bucket whose id differs only in letter case, a second live Datastore with the same bucket id, equal data in different number types (C07/C08), zones at +00:00 that are not UTC and both readings of a repeated hour in one process (C13), "
+           "the same bucket ids in both profiles, ids equal up to case, unpaired surrogates in legacy data (C14), orderly reopen followed by a slow trickle and workers living east of UTC (C18), id 0, results annotated by the caller (C09), duplicate ids and "
+           "tuple-versus-list data (C10), windows around the wall-clock present (C12), look-alike ids for absent-bucket calls (C05), hand-outs through limited listings (C01), arrays of tables (C20).", "",
            "| seeded change | property | what it needs in order to manifest | quick check | first reported line |", "|---|---|---|---|---|"] + rows + ["",
            "Seeded changes that stopped being breaking changes when a genuine defect was repaired (kept for the record, not counted above):", "",
            "| seeded change | property | why it no longer breaks the property |", "|---|---|---|"] + neutral + ["",
+           "Seeded changes that are not violations under the reading of the property that the specification fixes (kept for the record, not counted above; silent on purpose):", "",
+           "| seeded change | property | why the checks stay silent |", "|---|---|---|"] + outside + ["",
            "### Property-preserving changes (must stay silent)", "",
            "`tools/benign_eval.py` applies each of these to a scratch worktree, runs the pinned suite (must pass) and the listed quick checks (must exit 0).", "",
            "| change | why it preserves the properties | checks run | result |", "|---|---|---|---|"] + brow + [""]
